@@ -192,6 +192,19 @@ def prepare():
         g = GOLD.setdefault(e['key'], {})
         g['model'] = me.model
         g['hash'] = str(ModelHash(me.model))
+        # what survives verbatim on the pinned tree is compared with what was STORED, not with a
+        # retrieve made by the code under test: the dataset always, the whole model for every
+        # pool entry except the three structural variants (whose re-parsed representation
+        # differs - C02's business)
+        orig = ModelHash(e['model'])
+        verbatim_model = e['name'] not in ('peri_2.0', 'addi', 'bigaddi')
+        if str(orig.dataset_hash) != str(ModelHash(me.model).dataset_hash) or (
+                verbatim_model and (g['hash'] != str(orig) or not (me.model == e['model']))):
+            PREPARE_VIOLATIONS.append({
+                'signature': f'{PROP}/entry-not-equivalent-after-fault-free-store',
+                'detail': f'{e["name"]}: after one fault-free store_model_entry + retrieve the '
+                          f'{"dataset" if str(orig.dataset_hash) != str(ModelHash(me.model).dataset_hash) else "model"} '
+                          f'differs from what was stored'})
         if e['has_results']:
             # results are compared with what was STORED (the round trip through results.json is
             # exact on the pinned tree), not with a golden retrieve
